@@ -21,6 +21,7 @@ import subprocess
 
 import vcheck
 from vcheck import coq_list
+from checks import c10tq
 
 VERIF = vcheck.VERIF
 CODE = {1: "statement does not lex (unterminated literal/comment or stray byte)",
@@ -158,6 +159,7 @@ def run_correspondence(ck, known):
     total, verd_all, by_id, hist, sites, rejs = 0, {}, {}, {}, {}, {}
     distinct = set()
     nbad_base = 0
+    tq_pairs = []
     for tag, path in runs:
         bases, cases, rej = load(path)
         off = 0 if tag == "gen" else 10_000_000
@@ -180,6 +182,9 @@ def run_correspondence(ck, known):
                 return
             verd_all.update(v)
         for c in cases:
+            if c.get("tq") and 0 <= c["base"] < len(bases) and bases[c["base"]].get("tq"):
+                tq_pairs.append((c, bases[c["base"]]))
+        for c in cases:
             by_id[c["id"]] = c
             total += 1
             hist[c["class"]] = hist.get(c["class"], 0) + 1
@@ -189,6 +194,7 @@ def run_correspondence(ck, known):
                 distinct.add(c["site"] + "|" + c["val"])
     ck.obligation("every site has a baseline statement", nbad_base == 0, "%d cases without baseline" % nbad_base)
     run_tree_tie(ck, list(by_id.values()), "gen+corpus")
+    c10tq.run(ck, tq_pairs, "gen+corpus", describe)
 
     # 8 = the statement for the HARMLESS marker does not lex: a concrete failing request as well (the case's site with the marker)
     mism = sorted(i for i, v in verd_all.items() if v in (7, 10))
